@@ -126,6 +126,8 @@ type File struct {
 	Class   string
 	Methods []*Method
 	Text    string
+	// LeadingBlankLines: empty or white-space-only lines before the first token of the file
+	LeadingBlankLines int
 }
 
 func (f *File) IsTest() bool { return f.Role == RoleTestByName || f.Role == RoleTestByDir }
